@@ -95,7 +95,7 @@ def run_cases(binp, S, cases, flavour="default", shim=True, timeout=900):
     for c in cases:
         lines.append("id=%d len=%d nsend=%d nrecv=%d nshm=%d faults=%s level=%s%s" % (
             c["id"], c["len"], c.get("nsend", 0), c.get("nrecv", 0), c.get("nshm", 0), c.get("faults", ""), c.get("level", "platform"),
-            " prefail=1" if c.get("prefail") else ""))
+            (" prefail=1" if c.get("prefail") else "") + ((" rintr=%d" % c["rintr"]) if c.get("rintr") else "")))
     env = {}
     if S is not None:
         env["VSHIM_SNDBUF"] = S
@@ -141,6 +141,9 @@ def oracle(chk, item, require_ok):
     if rv.get("hang"):
         return "receiver blocked for ever (watchdog) after send=%s" % rec["send"]
     if rec["send"] == "Ok":
+        if "err" in rv and c.get("rintr"):
+            # a read interrupted by a signal may fail the receive; what it must not do is hand out a wrong payload
+            return None
         if "err" in rv:
             return "send reported success but the receiver got an error: %s" % rv["err"]
         if not rv.get("equal") or rv.get("len") != c["len"]:
@@ -177,7 +180,7 @@ def render_check(item):
     ft = faults_term(c.get("faults", ""))
     t = "check_send %d %d %d %s %s [%s]" % (S, L, n, ft, o, "; ".join(item["send_obs"]))
     ro = item["recv_obs"]
-    if rec["send"] == "Ok" and ro is not None and ro["n_recvmsg"] == 1:
+    if rec["send"] == "Ok" and ro is not None and ro["n_recvmsg"] == 1 and not c.get("rintr"):
         t = "(%s) && check_recv %d %d %d %s %d %d %d %d [%s]" % (
             t, S, L, n, ft, ro["cap"], ro["ctl"], ro["got"], ro["rights"],
             "; ".join("(%d, %d)" % p for p in ro["reads"]))
